@@ -271,6 +271,30 @@ def run(ctx, tier):
             ctx.violation("result-handed-out-by-reference:" + _name(fn).split(".")[-1], function=_name(fn), args=repr(a)[:300],
                           recorded=want[:300], after_the_caller_edited_the_previous_result=again[:300], monitor="replay", case=None)
     ctx.hit("replay_after_caller_edited_result", nm_)
+    # phase 1s: a detached worker (daemonised, double-forked) whose standard streams are CLOSED: a decoder has nothing to say on
+    # them - a "tell the user once" notice or a leftover debug print turns into ValueError there.  (The two aliases that are
+    # documented to emit a DeprecationWarning are not asked.)
+    ns_ = 0
+    import io as _io
+    closed_out, closed_err = _io.StringIO(), _io.StringIO()
+    closed_out.close()
+    closed_err.close()
+    for i in order[:1500]:
+        fn, a, k, want = rec[i]
+        if _name(fn).split(".")[-1] in ("alt40mcp", "alt40fms", "tell"):
+            continue
+        so, se = sys.stdout, sys.stderr
+        sys.stdout, sys.stderr = closed_out, closed_err
+        try:
+            got = repr(probe.call(fn, *_copy(a), **_copy(k)))
+        finally:
+            sys.stdout, sys.stderr = so, se
+        ns_ += 1
+        ctx.ev()
+        if got != want:
+            ctx.violation("result-depends-on-standard-streams-being-open:" + _name(fn).split(".")[-1], function=_name(fn), args=repr(a)[:300],
+                          recorded=want[:300], with_closed_stdout_and_stderr=got[:300], monitor="replay", case=None)
+    ctx.hit("replay_with_closed_standard_streams", ns_)
     # phase 1r: the caller is deep in its own stack (a recursive parser, a tree walker, a lowered recursion limit) and leaves the
     # decoder 80 frames of headroom - plenty for code whose call depth does not grow with the length of the message
     nr = 0
@@ -290,6 +314,26 @@ def run(ctx, tier):
             if got != want:
                 ctx.violation("result-depends-on-stack-depth-of-the-caller:" + _name(fn).split(".")[-1], function=_name(fn), args=repr(a)[:300],
                               recorded=want[:300], with_80_frames_of_headroom=got[:300], monitor="replay", case=None)
+    # ... and with almost NO headroom: the call dies somewhere inside with RecursionError (any asynchronous error would do: a
+    # KeyboardInterrupt, a MemoryError) - that is the caller's problem, but the next ordinary call must not inherit a
+    # half-updated memo / scratch state from the one that died
+    nx = 0
+    if descend > 50:
+        for i in order[:400]:
+            fn, a, k, want = rec[i]
+            h = 1 + (i * 7 + nx) % 24
+            try:
+                _deep(descend + 80 - h, lambda: probe.call(fn, *_copy(a), **_copy(k)))
+            except RecursionError:
+                pass
+            got = repr(probe.call(fn, *_copy(a), **_copy(k)))
+            nx += 1
+            ctx.ev(2)
+            if got != want:
+                ctx.violation("result-depends-on-call-history:" + _name(fn).split(".")[-1], function=_name(fn), args=repr(a)[:300],
+                              first_result=want[:300], replayed_result=got[:300], note="after the same call died of RecursionError with %d frames of headroom" % h,
+                              monitor="replay", case=None)
+    ctx.hit("replay_after_a_call_that_died_of_recursion", nx)
     ctx.hit("replay_from_a_deep_stack", nr)
     # phase 1i: a flag argument is judged by its truth value: numpy.bool_ (an element of a comparison such as (dfs == 17)[i])
     # and the ints 0 / 1 mean what False / True mean (`if flag is True:` only knows the two singletons)
@@ -434,9 +478,11 @@ def _cold(ctx, tier, rec, rng):
                 # interpreter flags a deployment may use: assertions off (-O), docstrings stripped as well (-OO)
                 flags = ([], ["-O"], ["-OO"])[(j + ctx.shard) % 3]
                 ctx.hit("replay_cold_start_flags_" + ("".join(flags) or "default"))
-                strict = ([], ["strict"], ["ambient"])[(j + ctx.shard // 3) % 3]
+                strict = ([], ["strict"], ["ambient"], ["closed"])[(j + ctx.shard // 3) % 4]
                 if strict == ["strict"]:
                     ctx.hit("replay_cold_start_strict_numeric_policy")
+                elif strict == ["closed"]:
+                    ctx.hit("replay_cold_start_closed_standard_streams")
                 elif strict:
                     ctx.hit("replay_cold_start_print_options_set_before_import")
                 # the workers run with PYTHONHASHSEED=0; a deployment does not: every fresh interpreter gets another string-hash
@@ -453,7 +499,7 @@ def _cold(ctx, tier, rec, rng):
             n += 1
             for w in out[:2]:
                 ctx.violation("result-differs-in-a-fresh-interpreter:" + w["function"].split(".")[-1], monitor="replay",
-                              case=None, interpreter_flags=("".join(flags) or "default") + (" + np.seterr(all=raise) before first use" if strict == ["strict"] else " + numpy print options / decimal context set before import" if strict else ""), **w)
+                              case=None, interpreter_flags=("".join(flags) or "default") + (" + np.seterr(all=raise) before first use" if strict == ["strict"] else " + standard streams closed" if strict == ["closed"] else " + numpy print options / decimal context set before import" if strict else ""), **w)
         ctx.hit("replay_cold_start_processes", n)
     finally:
         try:
